@@ -24,3 +24,7 @@ G = ['comment writers (output_comment_*) pass comment-internal CR/LF through add
      'lines have fewer than 65000 pending blanks and columns stay below 2^31 (UINT16 cpd.spaces would wrap beyond that: a real limitation of the code)',
      'next_tab_column is treated as the uninterpreted function NTC of (col, output_tab_size, cpd.frag_cols); its purity is argued from its empty assigns clause (proved) and by reading its 3-line body']
 MACRO_HEADERS = ['output_macros.h', 'tokenizer_macros.h']
+
+sys.path.insert(0, os.path.join(os.path.dirname(os.path.abspath(__file__)), '..', '..', 'tools'))
+import replay_lib  # noqa: E402
+REPLAY = replay_lib.make_replay(replay_lib.scenario_line_endings, replay_lib.scenario_whitespace_hygiene)
